@@ -81,6 +81,8 @@ def strategy_impl(draw, tier):
         "values": values,
         "to": to,
         "to_spelling": to_spelling,
+        # a `to` mapping may also name axes the call does not operate on (they must be ignored)
+        "to_extra": {n: draw(st.sampled_from(by_name[n]["positions"])) for n in names if n not in op_axes and draw(st.booleans())},
         "call_boundary": call_boundary,
         "call_fill": call_fill,
     }
@@ -104,7 +106,7 @@ def call_kwargs(case, to):
         if case["to_spelling"] == "scalar":
             kw["to"] = next(iter(to.values()))
         else:
-            kw["to"] = dict(to)
+            kw["to"] = dict(case.get("to_extra") or {}, **to)
     if case["call_boundary"] is not None:
         kw["boundary"] = build.copy_arg(case["call_boundary"])
     if case["call_fill"] is not None:
